@@ -57,7 +57,7 @@ def l_ord(x):
     if isinstance(x, lbytes._LBase):
         if len(x.s) != 1:
             raise TypeError("ord() expected a character, but string of length %d found" % len(x.s))
-        return ord(x.s[0])
+        return lbytes.note_bits(ord(x.s[0]), 255)
     return ord(x)
 
 
@@ -292,9 +292,116 @@ def rr_rt(ki: int, ni: int, cls: int, ttl: int, pi: int, x1: int, x2: int, x3: i
     return _same_rr(kind, h, g) and g.rdlength + HS + len(_pick(ni, MENU)) + 2 + 10 == len(enc)
 
 
-BOUNDS = {"quick": {"lab": 2}, "thorough": {"lab": 3}}
+
+M3 = ["ex.org", "www.ex.org", "org", "EX.org"]
+_FLAGS = ("answer", "opCode", "recDes", "recAv", "auth", "rCode", "trunc", "authenticData", "checkingDisabled")
+
+
+def _build_msg(mid, auth, nq, na, nns, nadd, ia, ib, ic, t1, c1, ttl, x1, s1, s2, maxSize):
+    m = L.Message(id=mid, answer=1, recDes=1, auth=auth, opCode=2, rCode=3, maxSize=maxSize)
+    na1, nb, nc = _pick(ia, M3), _pick(ib, M3), _pick(ic, M3)
+    if nq >= 1:
+        m.queries.append(L.Query(b(na1), t1, c1))
+    if nq >= 2:
+        m.queries.append(L.Query(b(nb), c1, t1))
+    kinds = []
+    if na >= 1:
+        m.answers.append(L.RRHeader(b(na1), L.MX, c1, ttl, L.Record_MX(x1, b(nc), ttl)))
+        kinds.append("MX")
+    if na >= 2:
+        r = L.Record_A(ttl=ttl + 1)
+        r.address = b((s1 + "\x0a\x00\x00\x01")[:4])
+        m.answers.append(L.RRHeader(b(nb), L.A, 1, ttl + 1, r))
+        kinds.append("A")
+    if nns >= 1:
+        m.authority.append(L.RRHeader(b("org"), L.NS, 1, ttl, L.Record_NS(b(nc), ttl)))
+        kinds.append("NS")
+    if nadd >= 1:
+        m.additional.append(L.RRHeader(b(na1), L.TXT, 1, ttl, L.Record_TXT(b(s2), ttl=ttl)))
+        kinds.append("TXT")
+    return m, kinds
+
+
+def _same_header(m, d):
+    for k in ("id",) + _FLAGS:
+        if getattr(m, k) != getattr(d, k):
+            return False
+    return True
+
+
+def _same_queries(qs, ds):
+    if len(qs) != len(ds):
+        return False
+    for q, d in zip(qs, ds):
+        if not (t(q.name.name) == t(d.name.name) and q.type == d.type and q.cls == d.cls and q == d):
+            return False
+    return True
+
+
+def _prefix_rrs(kinds, hs, gs, exact):
+    """decoded records gs are the first len(gs) of hs (all of them when exact)"""
+    if len(gs) > len(hs) or (exact and len(gs) != len(hs)):
+        return False
+    for k, h, g in zip(kinds, hs, gs):
+        if not _same_rr(k, h, g):
+            return False
+    return True
+
+
+def hdr_rt(mid: int, answer: int, op: int, recDes: int, recAv: int, auth: int, rc: int, trunc: int, ad: int,
+           cdis: int) -> bool:
+    """
+    pre: 0 <= mid < 65536 and 0 <= op < 16 and 0 <= rc < 16
+    pre: 0 <= answer <= 1 and 0 <= recDes <= 1 and 0 <= recAv <= 1 and 0 <= auth <= 1
+    pre: 0 <= trunc <= 1 and 0 <= ad <= 1 and 0 <= cdis <= 1
+    post: _
+    """
+    m = L.Message(id=mid, answer=answer, opCode=op, recDes=recDes, recAv=recAv, auth=auth, rCode=rc, trunc=trunc,
+                  authenticData=ad, checkingDisabled=cdis)
+    enc = t(m.toStr())
+    api.obs(enc)
+    cover()
+    if len(enc) != HS or enc[4:] != "\0" * 8:
+        return False
+    d = L.Message()
+    d.fromStr(b(enc))
+    return (_same_header(m, d) and d.queries == [] and d.answers == [] and d.authority == []
+            and d.additional == [] and m.trunc == trunc)
+
+
+def msg_rt(mid: int, auth: int, nq: int, na: int, nns: int, nadd: int, ia: int, ib: int, ic: int,
+           t1: int, c1: int, ttl: int, x1: int, s1: str, s2: str) -> bool:
+    """
+    pre: 0 <= mid < 65536 and 0 <= auth <= 1
+    pre: 0 <= nq <= 2 and 0 <= na <= 2 and 0 <= nns <= 1 and 0 <= nadd <= 1
+    pre: 0 <= ia < B['names'] and 0 <= ib < B['names'] and 0 <= ic < B['names']
+    pre: 0 <= t1 < 65536 and 0 <= c1 < 65536 and 0 <= ttl < 2 ** 32 - 1 and 0 <= x1 < 65536
+    pre: len(s1) <= 2 and len(s2) <= 2 and all(ord(c) < 256 for c in s1 + s2)
+    post: _
+    """
+    m, kinds = _build_msg(mid, auth, nq, na, nns, nadd, ia, ib, ic, t1, c1, ttl, x1, s1, s2, 512)
+    tr0 = m.trunc
+    enc = t(m.toStr())
+    api.obs(enc)
+    cover()
+    d = L.Message()
+    d.fromStr(b(enc))
+    if m.trunc != tr0:
+        return False        # far below the size limit: encoding must not set TC
+    ka = kinds[:len(m.answers)]
+    kn = kinds[len(m.answers):len(m.answers) + len(m.authority)]
+    kd = kinds[len(m.answers) + len(m.authority):]
+    return (_same_header(m, d) and _same_queries(m.queries, d.queries)
+            and _prefix_rrs(ka, m.answers, d.answers, True) and _prefix_rrs(kn, m.authority, d.authority, True)
+            and _prefix_rrs(kd, m.additional, d.additional, True))
+
+
+BOUNDS = {"quick": {"lab": 2, "names": 2}, "thorough": {"lab": 3, "names": 4}}
 B = {}
 HARNESSES = [H(name_rt, shards=[("len(l1) == 2", "len(l2) == 2", "len(l3) == 1")]),
              H(query_rt),
              H(rr_rt, shards=_RR_SHARDS, timeout={"quick": 90, "thorough": 900}),
+             H(hdr_rt),
+             H(msg_rt, shards=[("nq == %d" % a, "na == %d" % c) for a in range(3) for c in range(3)],
+               timeout={"quick": 90, "thorough": 900}),
              H(names_comp, shards=[("len(l1) == 2", "len(l2) == 2"), ("len(l1) == 1", "len(l2) == 2")])]
